@@ -89,12 +89,13 @@ func (q *query) run()
   ensures q.queryPeers == old(q.queryPeers) && q.dht == old(q.dht)
 
 func (dht *IpfsDHT) runQuery(ctx context.Context, target string, queryFn queryFn, stopFn stopFn) (*lookupWithFollowupResult, *qpeerset.QueryPeerset, error)
-  props C01
+  props C01 C03
   requires cfgOK(dht)
   modifies *
   ensures imp(result2 != nil, result0 == nil && result1 == nil)
   ensures imp(result2 == nil, result0 != nil && result1 != nil && result0.$qp == result1 && qpeerset.wf(result1) && !result1.$has[dht.self])
   ensures imp(result2 == nil, lookupResultOK(result0, result1, dht.bucketSize))
+  ghost at before call(run): assert(ctxRoot(q.ctx) == old(ctxRoot(ctx)))
 
 role stopFn(qp *qpeerset.QueryPeerset) bool in (dht *IpfsDHT) runLookupWithFollowup(ctx context.Context, target string, queryFn queryFn, stopFn stopFn) (*lookupWithFollowupResult, error)
   pure
@@ -121,15 +122,29 @@ func (dht *IpfsDHT) runLookupWithFollowup(ctx context.Context, target string, qu
   ensures imp(result1 != nil, result0 == nil)
   ensures imp(result1 == nil, result0 != nil && result0.$qp != nil && qpeerset.wf(result0.$qp) && !result0.$qp.$has[dht.self])
   ensures imp(result1 == nil, lookupResultOK(result0, result0.$qp, dht.bucketSize))
+  ghost at before call(runQuery): assert(ctxRoot($arg0) == old(ctxRoot(ctx)))
+  ghost at go(func): assert(ctxRoot(followUpCtx) == old(ctxRoot(ctx)))
+
+# follow-up worker: queries with the (cancellable) follow-up context, then
+# reports exactly one completion
+funclit 0 in (dht *IpfsDHT) runLookupWithFollowup(ctx context.Context, target string, queryFn queryFn, stopFn stopFn) (*lookupWithFollowupResult, error)
+  props C03
+  ghostvar $root int = any
+  ghostvar $sent int = 0
+  ensures [internal-one-completion] $sent == 1
+  ghost at entry: $root = ctxRoot(followUpCtx)
+  ghost at before call(queryFn): assert(ctxRoot($arg0) == $root)
+  ghost at send(doneCh): $sent = $sent + 1
 
 func (dht *IpfsDHT) GetClosestPeers(ctx context.Context, key string) ([]peer.ID, error)
-  props C01 C02
+  props C01 C02 C03
   requires cfgOK(dht)
   ghostvar $lr *lookupWithFollowupResult = nil
   modifies *
   ensures [result-is-peers] imp($lr != nil, result0 == $lr.peers && lookupResultOK($lr, $lr.$qp, dht.bucketSize) && !$lr.$qp.$has[dht.self])
   ensures imp($lr == nil, result1 != nil && len(result0) == 0)
   ghost at call(runLookupWithFollowup): $lr = $ret0
+  ghost at before call(runLookupWithFollowup): assert(ctxRoot($arg0) == old(ctxRoot(ctx)))
 
 import recpb "github.com/libp2p/go-libp2p-record/pb"
 # ---- request handlers (C09) -----------------------------------------------
@@ -268,15 +283,24 @@ funclit 0 in (dht *IpfsDHT) searchValueQuorum(ctx context.Context, key string, v
   ensures [stop-only-past-quorum] imp(result && tagged("closed:stopCh"), nvals > 0 && numResponses > nvals)
 
 func (dht *IpfsDHT) getValues(ctx context.Context, key string, stopQuery chan struct{}) (<-chan recvdVal, <-chan *lookupWithFollowupResult)
-  props C04
+  props C04 C03
   ghostvar $ok bool = false
   ghostvar $v []byte = nil
   chan_inv valCh : $ok && $msg.Val == $v && $msg.From == dht.self
   modifies *
   ghost at call(Validate): $ok = ($ret0 == nil && $arg0 == key); $v = $arg1
+  ghost at go(func): assert(ctxRoot(ctx) == old(ctxRoot(ctx)))
+
+funclit 0 in (dht *IpfsDHT) getValues(ctx context.Context, key string, stopQuery chan struct{}) (<-chan recvdVal, <-chan *lookupWithFollowupResult)
+  props C03
+  requires cfgOK(dht)
+  ghostvar $root int = any
+  ghost at entry: $root = ctxRoot(ctx)
+  ghost at before call(runLookupWithFollowup): assert(ctxRoot($arg0) == $root)
+  ensures [result-channels-closed] tagged("closed:valCh") && tagged("closed:lookupResCh")
 
 funclit 1 in (dht *IpfsDHT) getValues(ctx context.Context, key string, stopQuery chan struct{}) (<-chan recvdVal, <-chan *lookupWithFollowupResult)
-  props C04
+  props C04 C03
   ghostvar $ok bool = false
   ghostvar $v []byte = nil
   chan_inv valCh : $ok && $msg.Val == $v && $msg.From == p
@@ -310,12 +334,23 @@ funclit 1 in (dht *IpfsDHT) PutValue(ctx context.Context, key string, value []by
   ghost at entry: $root = ctxRoot(ctx)
   ghost at before call(PutValue): assert($arg1 == p && $arg2 == rec); assert(ctxRoot($arg0) == $root)
 
+func (dht *IpfsDHT) SearchValue(ctx context.Context, key string, opts ...routing.Option) (ch <-chan []byte, err error)
+  props C03
+  requires cfgOK(dht)
+  modifies *
+  ghost at before call(getValues): assert(ctxRoot($arg0) == old(ctxRoot(ctx)))
+  ghost at go(func): assert(ctxRoot(ctx) == old(ctxRoot(ctx)))
+
 funclit 1 in (dht *IpfsDHT) SearchValue(ctx context.Context, key string, opts ...routing.Option) (ch <-chan []byte, err error)
-  props C06
+  props C06 C03
   requires cfgOK(dht)
   loop 0 invariant len(updatePeers) <= $key
   ghost at append(updatePeers): assert(!has(peersWithBest, p))
   ghost at before call(updatePeerValues): assert($arg1 == key && $arg2 == best && $arg3 == updatePeers && best != nil && !aborted)
+  ghostvar $root int = any
+  ensures [result-channel-closed] tagged("closed:out")
+  ghost at entry: $root = ctxRoot(ctx)
+  ghost at before call(searchValueQuorum): assert(ctxRoot($arg0) == $root)
 
 func (dht *IpfsDHT) GetValue(ctx context.Context, key string, opts ...routing.Option) (result []byte, err error)
   props C04
@@ -324,6 +359,35 @@ func (dht *IpfsDHT) GetValue(ctx context.Context, key string, opts ...routing.Op
 
 # ---- optimistic provide (C06, C03) -----------------------------------------------
 guarded_by optimisticState.peerStatesLk : optimisticState.peerStates
+
+# C03: classic provide hands contexts derived from the caller's to the lookup
+# and to every ADD_PROVIDER RPC, and waits for exactly the RPC goroutines it
+# started (wait group accounting by the engine).
+func (dht *IpfsDHT) classicProvide(ctx context.Context, keyMH multihash.Multihash) error
+  props C03
+  requires cfgOK(dht)
+  modifies *
+  ghost at before call(GetClosestPeers): assert(ctxRoot($arg0) == old(ctxRoot(ctx)))
+  ghost at go(func): assert(ctxRoot(ctx) == old(ctxRoot(ctx)))
+
+funclit 0 in (dht *IpfsDHT) classicProvide(ctx context.Context, keyMH multihash.Multihash) error
+  props C03
+  ghostvar $root int = any
+  ghost at entry: $root = ctxRoot(ctx)
+  ghost at before call(PutProviderAddrs): assert(ctxRoot($arg0) == $root && $arg1 == p)
+
+func (dht *IpfsDHT) Provide(ctx context.Context, key cid.Cid, brdcst bool) (err error)
+  props C03
+  requires cfgOK(dht)
+  modifies *
+  ghost at before call(optimisticProvide): assert(ctxRoot($arg0) == old(ctxRoot(ctx)))
+  ghost at before call(classicProvide): assert(ctxRoot($arg0) == old(ctxRoot(ctx)))
+
+func (dht *IpfsDHT) FindPeer(ctx context.Context, id peer.ID) (pi peer.AddrInfo, err error)
+  props C03
+  requires cfgOK(dht)
+  modifies *
+  ghost at before call(runLookupWithFollowup): assert(ctxRoot($arg0) == old(ctxRoot(ctx)))
 
 func (dht *IpfsDHT) newOptimisticState(ctx context.Context, key string) (*optimisticState, error)
   props C06
@@ -381,6 +445,7 @@ func (dht *IpfsDHT) findProvidersAsyncRoutine(ctx context.Context, key multihash
   ensures [closed] tagged("closed:peerOut")
   ghost at call(psTryAdd): $ok = $ret0; $last = $arg0
   ghost at before call(GetProviders): assert($arg1 == key)
+  ghost at before call(runLookupWithFollowup): assert(ctxRoot($arg0) == old(ctxRoot(ctx)))
 
 funclit 2 in (dht *IpfsDHT) findProvidersAsyncRoutine(ctx context.Context, key multihash.Multihash, count int, peerOut chan peer.AddrInfo)
   props C08
@@ -455,6 +520,8 @@ func (q *query) queryPeer(ctx context.Context, ch chan<- *queryUpdate, p peer.ID
   ghost at call(queryPeerFilter): $filt = $ret0
   ghost at before call(maybeAddAddrs): assert(isTarget || $filt); assert($arg0 == next.ID)
   ghost at append(saw): assert(isTarget || $filt); assert(next.ID != q.dht.self)
+  ghost at before call(dialPeer): assert(ctxRoot($arg0) == old(ctxRoot(ctx)))
+  ghost at before call(queryFn): assert(ctxRoot($arg0) == ctxRoot(q.ctx))
 
 # ---- address scoping filters (C15) ------------------------------------------------
 func isRelayAddr(a ma.Multiaddr) bool
